@@ -156,6 +156,9 @@ struct Model {
 	int pending_routed() const;
 	bool has_unbound_routed() const;
 	bool visible(const Peer &p, const Elem &e) const;
+	// the result a get with these params must carry for peer c; returns parse_rule's code (0 ok, 1 refused, 2 repeated option key: result or refusal, 3 unmodelled)
+	int get_image(int c, const JV &params, JV &set, bool *all = nullptr) const;
+	std::string image_key() const;   // canonical text of everything a get can depend on
 	uint64_t fingerprint() const;
 
 private:
